@@ -145,7 +145,48 @@ def fixed_scenarios(seed):
     #     incl. to exactly 0: the beta in force must be the one the user's configuration and actions denote
     out.append(betazero_cfg(s, 0))
     out.append(betasched_cfg(s, 0))
+    # 11. (round 6) explicit uid groups listed in ANY order (descending, shuffled, interleaved) with very heterogeneous acquisition
+    #     inside the destination group (rel_sus 0 for 40%, infected / recovered members): every quantity computed per member
+    #     of a group must stay attached to THAT member through the Bernoulli filter
+    out.append(poolorder_cfg(s, 0))
+    # 12. (round 6) groups given by callables returning a BoolArr (the documented style), incl. groups that have no member at
+    #     all or run empty during the run (infants without births): no infectious source member -> no infection
+    out.append(poolbool_cfg(s, 0))
     return out
+
+
+def poolorder_cfg(seed, variant=0):
+    s = int(seed) + int(variant)
+    n = 100
+    o = ['desc', 'shuf', 'ilv']
+    nets = [dict(type='pool', name='ordpool', src='uids_lo_' + o[s % 3], dst='uids_hi_' + o[(s + 1) % 3], beta=0.9, timepar=bool(s % 2), contacts=3, n_agents=n),
+            dict(type='pool', name='ordpool2', src='all', dst='uids_mid_' + o[(s + 2) % 3], beta=0.7, timepar=False, contacts=2, n_agents=n),
+            dict(type='pools', beta=0.8, n_agents=n, contacts=[[2.0, 1.0], [0.5, 1.5]],
+                 src_groups=[['a', 'uids_lo_' + o[(s + 1) % 3]], ['b', 'female']], dst_groups=[['c', 'uids_hi_' + o[s % 3]], ['d', 'uids_mid_' + o[(s + 1) % 3]]])]
+    if variant % 2:
+        nets = nets[::-1]
+    return dict(family='poolorder', n_agents=n, rand_seed=3100 + s, dt=1.0, npts=6, networks=nets,
+                demographics=[] if s % 3 else [dict(type='deaths', death_rate=30)],     # a removal re-sorts an explicit list (uids.remove): both regimes
+                diseases=[dict(type='sis', init_prev=0.4, log=True, beta=dict(kind='scalar', v=0.0, tp=False)),
+                          dict(type='sir', init_prev=0.3, beta=dict(kind='scalar', v=0.0, tp=False))],
+                rel=dict(seed=111 + s, p_zero=0.4, edge_beta=False))
+
+
+def poolbool_cfg(seed, variant=0):
+    s = int(seed) + int(variant)
+    n = 100
+    nets = [dict(type='pool', name='bpool', src='b_female', dst='b_male', beta=0.8, timepar=bool(s % 2), contacts=2, n_agents=n),
+            dict(type='pool', name='emptysrc', src=['b_nobody', 'nobody'][s % 2], dst=['all', 'b_under30'][s % 2], beta=1.0, timepar=False, contacts=3, n_agents=n),
+            dict(type='pool', name='infants', src='b_infants', dst=['b_over30', 'all'][s % 2], beta=1.0, timepar=False, contacts=3, n_agents=n),
+            dict(type='pools', beta=0.9, n_agents=n, contacts=[[2.0, 1.0], [1.0, 2.0]],
+                 src_groups=[['w', 'b_female'], ['none', 'b_nobody']], dst_groups=[['young', 'b_under30'], ['old', 'b_over30']])]
+    if variant % 2:
+        nets = nets[::-1]
+    return dict(family='poolbool', n_agents=n, rand_seed=3200 + s, dt=1.0, npts=5, networks=nets,
+                demographics=[dict(type='deaths', death_rate=20)] if s % 2 else [],
+                diseases=[dict(type='sis', init_prev=0.4, log=True, beta=dict(kind='scalar', v=0.0, tp=False)),
+                          dict(type='sir', init_prev=0.3, beta=dict(kind='scalar', v=0.0, tp=False))],
+                rel=dict(seed=121 + s, p_zero=0.3, edge_beta=False))
 
 
 def poolsmix_cfg(seed, variant=0):
